@@ -335,6 +335,7 @@ class World:
         self.epoch = 0
         self.stretch = {}
         self.ever_monitored = set()
+        self.want = {}           # app -> configuration requested so far
         self.fps = []
         self.nontrivial = 0
         self.died = 0
@@ -420,6 +421,14 @@ class World:
             self.probes['reconfigured'] += 1
         # reference bucket: a new epoch with a full burst at every
         # (re)configuration the monitor is told about [code: 254-260]
+        want = self.want.get(name)
+        if want is not None and want['count'] is not None:
+            # the configuration in force is the one requested (the record is
+            # read at this instant, the requests are all in)
+            if (count, policy) != (want['count'], want['policy']):
+                self.probes['stored_differs_from_requested'] = \
+                    self.probes.get('stored_differs_from_requested', 0) + 1
+            count, policy = want['count'], want['policy']
         self.told.conf[name] = {'count': count, 'policy': policy, 't': now}
         # reading the node successfully also tells the monitor it exists
         self.told.mons.add(name)
@@ -896,8 +905,21 @@ class World:
         if app not in self.apps:
             return
         existed = self.zk.nodes.get(z.path.appmonitor(app)) is not None
-        masterapi.update_appmonitor(self.admin, app, int(op['count']),
-                                    op.get('policy'))
+        count = op.get('count')
+        if count is None and not existed:
+            return                    # (the API refuses a create without one)
+        # what the administrator has asked for, by the update verb's own
+        # contract: a key that is not sent keeps its value
+        want = dict(self.want.get(app) or {'count': None, 'policy': None}) \
+            if existed else {'count': None, 'policy': None}
+        if count is not None:
+            want['count'] = int(count)
+        if op.get('policy') is not None:
+            want['policy'] = op['policy']
+        self.want[app] = want
+        masterapi.update_appmonitor(
+            self.admin, app, int(count) if count is not None else None,
+            op.get('policy'))
         if not existed and app in self.ever_monitored:
             self.probes['monitor_recreated'] += 1
         self.ever_monitored.add(app)
@@ -907,6 +929,7 @@ class World:
         app = op['app']
         if self.zk.nodes.get(z.path.appmonitor(app)) is None:
             return
+        self.want.pop(app, None)
         masterapi.delete_appmonitor(self.admin, app)
         self.probes['monitor_deleted'] += 1
         self.told.susp_safe.pop(app, None)
@@ -1127,8 +1150,9 @@ class Generator:
                         'n': self.rng.randint(1, 3)})
         ops.append({'op': 'mon_set', 'app': app,
                     'count': self.rng.randint(1, max(1, nlive + add - 2)),
+                    # (else: a count-only update, the policy stays)
                     'policy': policy if mon is None or
-                    self.rng.random() < 0.6 else mon[1]})
+                    self.rng.random() < 0.6 else None})
         ops.append({'op': 'deliver_all'} if self.sched.random() < 0.8
                    else {'op': 'deliver', 'n': self.sched.choice([1, 2, 3])})
         ops.append({'op': 'eval'})
